@@ -174,6 +174,13 @@ BASES = [
         '8606:you.distributions_2023': '20000', '8606:you.distributions_2022': '20000', '8606:you.distributions_2021': '20000',
         '1040.number_w-2': '1', 'w-2:0.box_1': '30000', 'w-2:0.box_2': '2500', 'w-2:0.box_5': '30000',
     }),
+    # copies with identical amounts (values forced to collide: anything that de-duplicates or keys by value shows up)
+    Base('B14-twin-copies', ['1040'], {
+        '1040.filing_status': 'MarriedFilingJointly', '1040.number_w-2': '2', 'w-2:*.box_1': '45000', 'w-2:*.box_2': '5000',
+        'w-2:*.box_5': '45000', 'w-2:*.box_17': '2000', 'w-2:1.belongs_to': 'spouse',
+        '1040.number_1099-int': '2', '1099-int:*.box_1': '400', '1099-int:*.box_4': '40', '1099-int:*.payer': 'Same Bank',
+        '1040.number_1099-div': '2', '1099-div:*.box_1a': '300', '1099-div:*.box_1b': '300', '1099-div:*.box_4': '30', '1099-div:*.payer': 'Same Fund',
+    }),
     Base('B7-dense', ['1040'], {
         '1040.number_w-2': '2', 'w-2:1.belongs_to': 'spouse', '1040.filing_status': 'MarriedFilingJointly',
         '1040.number_1099-int': '1', '1040.number_1099-div': '1', '1040.number_1099-g': '1', '1040.number_1098': '1',
